@@ -29,5 +29,5 @@ def run(chk, program, tier):
     K.yield_rule(chk, program)
     K.buf_reset(chk, program)
     # the scan loop inside the buffering _receive_impl contains no await on most paths: it must consume a packet on every iteration (weaker form of C20 BUF-PROGRESS)
-    from .c16 import _Sub
-    K.buf_rules(_Sub(chk, {'SCAN-PROGRESS'}), program)
+    from .. import rules_serial as RS
+    RS.decide(chk, program, tier, ['SCAN-PROGRESS', 'EOF'])
